@@ -136,7 +136,12 @@ fn roundtrip(seed: u64, idx: u64, rep: &mut Report) {
             let mut rd = DribbleReader { data: &wire, pos: 0, rng: Rng::derive(seed, 201, idx) };
             let mut c2 = Codec::new();
             for (which, want) in [("first", &m), ("second", &m_b)] {
-                match guarded(|| c2.read_message(&mut rd)) {
+                // under allocation accounting: the codec may hold one payload (<= 16 MiB) plus the decoded message
+                let (res, st) = alloc_scope(|| guarded(|| c2.read_message(&mut rd)));
+                if st.peak_live > 4 * (BOUND as isize) {
+                    rep.violation(&format!("C20|Codec|memory-held-while-reading-exceeds-4x-payload-bound|{k}"), json!({"seed": seed, "case": idx, "which": which, "peak_live": st.peak_live}));
+                }
+                match res {
                     Caught::Ok(Ok(got)) => {
                         if &got != want {
                             rep.violation(&format!("C20|Codec|roundtrip-differs|{k}"), json!({"seed": seed, "case": idx, "which": which}));
